@@ -10,7 +10,9 @@ Inductive report :=
 | ROut                             (* results differ *)
 | RObs (cats : N) (idx : N)        (* observations differ: categories bitmask, first index *)
 | RRef (cats : N) (idx : N)        (* reference engine differs from the implementation *)
-| RMonitor (prop clause : N).      (* a property monitor is false on the implementation's trace *)
+| RMonitor (prop clause : N)       (* a property monitor is false on the implementation's trace *)
+| RSched (explained : N).          (* a step's outcome differs from the predicted schedule's: 1 = some other
+                                      schedule of the same batch explains it, 0 = none does, 2 = batch too large to search *)
 
 Record rstate := mkRS {
   rs_L : nat; rs_tick : N;
@@ -121,4 +123,5 @@ Definition enc_report (r : report) : list N :=
   | RObs c i => [3; c; i]
   | RRef c i => [4; c; i]
   | RMonitor p c => [5; p; c]
+  | RSched x => [7; x]
   end.
